@@ -74,8 +74,10 @@ def worker_main(native_dir):
     i64 = np.int64
 
     def err_of(e):
+        # the exception class and the message text are not observables of the property: any exception is
+        # "an error"; the kernel's code is kept when the message carries one
         m = re.search(r"returns (\d+)", str(e))
-        return {"err": int(m.group(1)) if m else -1, "msg": str(e)[:120]}
+        return {"err": int(m.group(1)) if m else -1, "exc": type(e).__name__, "msg": str(e)[:120]}
 
     def run_job(job):
         nrows, ncols, fd = job["g"]
@@ -117,8 +119,11 @@ def worker_main(native_dir):
                         c.delineate_area(outlet, None if inlets is None else inlets, **kw)
                         r = {"ok": c.idxcells_area.tolist(), "filled": c.idxcells_area_filled.tolist()}
                         if len(op) > 5 and op[5]:
-                            c.compute_flowpathlengths()
-                            r["fpath"] = c.flowpathlengths.values.tolist()
+                            try:
+                                c.compute_flowpathlengths()
+                                r["fpath"] = [[float(v) for v in row] for row in c.flowpathlengths.values.tolist()]
+                            except Exception as e:
+                                r["fpath_err"] = err_of(e)
                         res.append(r)
                     else:
                         cells = np.full(nval, -1, dtype=i64)
@@ -147,10 +152,11 @@ def worker_main(native_dir):
                     g.data = fdarr
                     kw = {} if nval is None else {"nval": nval}
                     df = hg.delineate_river(g, start, **kw)
-                    res.append({"ok": df[["idxcell", "dist", "dx", "dy", "x", "y"]].values.tolist()})
+                    res.append({"ok": [[float(v) for v in row]
+                                       for row in df[["idxcell", "dist", "dx", "dy", "x", "y"]].values.tolist()]})
                 else:
                     res.append({"err": -2, "msg": "unknown op"})
-            except ValueError as e:
+            except Exception as e:
                 res.append(err_of(e))
         return res
 
@@ -693,6 +699,10 @@ def process_block(ctx, state, jobs, tags):
     def kind_of(r):
         return etab.get(r["err"], "err") if "err" in r else None
 
+    def generic(impl):
+        """impl reply is an error of unresolvable kind -> the model's kind is not compared either"""
+        return impl == "err:err"
+
     graphs = {}
     for job, tags, res in zip(cs_jobs, cs_tags, results):
         nrows, ncols, fd = job["g"]
@@ -732,6 +742,15 @@ def process_block(ctx, state, jobs, tags):
                 if "filled" in r:
                     reqs.append(f"fillmask {nrows} {ncols} {C.ilist(r['ok'])}")
                     meta.append(("fillmask", case, r))
+                if "fpath_err" in r:
+                    ctx.count(("fpath", gtok(job), str(op)), False, "fpath/error")
+                    exp_, cyc_ = g.area(outlet, inlets) if valid(n, outlet) else ([], True)
+                    if not cyc_:
+                        ctx.finding("fpath/error_on_area", "compute_flowpathlengths raises on a delineated area",
+                                    {**case, "impl": r["fpath_err"]})
+                    else:
+                        ctx.disagree("C06 fpath: compute_flowpathlengths raised, the model returns a table",
+                                     {"request": case, "impl": r["fpath_err"]})
                 if "fpath" in r:
                     rows = r["fpath"]
                     cells = [int(x[0]) for x in rows]
@@ -764,7 +783,7 @@ def process_block(ctx, state, jobs, tags):
     for req, (what, case, impl), rep in zip(reqs, meta, replies):
         if what in ("str", "area"):
             if rep.startswith("err:"):
-                rep = "err:" + MODEL_ERR.get(rep[4:], rep[4:])
+                rep = "err:err" if generic(impl) else "err:" + MODEL_ERR.get(rep[4:], rep[4:])
             elif what == "area":
                 rep = "ok:" + C.ilist(sorted(int(t) for t in C.parse_list(rep[3:])))
             ctx.compare("C06 " + req.split(" ")[0], case, impl, rep)
@@ -772,6 +791,8 @@ def process_block(ctx, state, jobs, tags):
             if rep.startswith("ok:"):
                 rows = rep[3:].strip("[]").split(";") if rep != "ok:[]" else []
                 rep = "ok:" + ";".join(C.ilist(sorted(int(t) for t in row.split(","))) for row in rows)
+            elif generic(impl):
+                rep = "err:err"
             ctx.compare("C06 up", case, impl, rep)
         elif what == "fillmask":
             r = impl
@@ -794,7 +815,8 @@ def process_block(ctx, state, jobs, tags):
         elif what == "river":
             r = impl
             if "err" in r:
-                ctx.compare("C06 river", case, "err:" + etab.get(r["err"], "err"), rep)
+                ik = "err:" + etab.get(r["err"], "err")
+                ctx.compare("C06 river", case, ik, "err:err" if ik == "err:err" and rep.startswith("err:") else rep)
                 continue
             rows = r["ok"]
             if not rep.startswith("ok:"):
@@ -821,9 +843,7 @@ def oracle_down(ctx, g, op, r, case, tag):
     allvalid = all(valid(g.n, c) for c in cells)
     ctx.count(("down", g.nrows, g.ncols, tuple(g.fd), tuple(cells)), allvalid and len(cells) > 0, f"down/{tag}")
     if not allvalid:
-        if "ok" in r:
-            ctx.finding("downstream/invalid_cell_not_rejected", "a cell number off the grid is given a downstream cell", case)
-        return
+        return          # cells off the grid are outside the property's quantifier: correspondence only
     if "err" in r:
         ctx.finding("downstream/valid_cell_rejected", "downstream raises on valid cells", case)
         return
@@ -841,9 +861,7 @@ def oracle_up(ctx, g, op, r, case, tag):
     allvalid = all(valid(g.n, c) for c in cells)
     ctx.count(("up", g.nrows, g.ncols, tuple(g.fd), tuple(cells)), allvalid and len(cells) > 0, f"up/{tag}")
     if not allvalid:
-        if "ok" in r:
-            ctx.finding("upstream/invalid_cell_not_rejected", "a cell number off the grid is given upstream cells", case)
-        return
+        return          # outside the property's quantifier: correspondence only
     if "err" in r:
         ctx.finding("upstream/valid_cell_rejected", "upstream raises on valid cells", case)
         return
@@ -859,9 +877,8 @@ def oracle_area(ctx, g, op, r, case, tag, nval):
     outlet, inlets = op[2], op[3] or []
     okargs = valid(g.n, outlet) and all(valid(g.n, c) for c in inlets) and nval >= 1
     if not okargs:
-        ctx.count(("area", str(case)), False, f"area/{tag}/rejected")
-        if "ok" in r:
-            ctx.finding("area/invalid_argument_not_rejected", "an outlet / inlet off the grid or nval < 1 is accepted", case)
+        # outlet / inlets off the grid, nval < 1: outside the property's quantifier (correspondence only)
+        ctx.count(("area", str(case)), False, f"area/{tag}/malformed")
         return
     exp, cyc = g.area(outlet, inlets)
     branch = "cycle" if cyc else "empty" if not exp else "ok" if nval >= len(exp) + 1 else "short"
@@ -958,14 +975,21 @@ def oracle_fpath(ctx, g, outlet, cells, rows, case, tag, natural):
 def oracle_river(ctx, g, op, r, case, tag, nval):
     start, xll, yll, csz = op[2], op[4], op[5], op[6]
     if not valid(g.n, start):
-        ctx.count(("river", str(case)), False, "river/rejected")
-        if "ok" in r:
-            ctx.finding("river/invalid_start_not_rejected", "a start cell off the grid is accepted", case)
+        ctx.count(("river", str(case)), False, "river/malformed")      # outside the quantifier: correspondence only
         return
+    # does the chain from the start end (sink / exit), by the independent graph search?
+    seen, c = set(), start
+    while c >= 0 and c not in seen:
+        seen.add(c)
+        c = g.down(c)
+    cyclic = c >= 0
     if "err" in r:
-        ctx.count(("river", str(case)), False, "river/error")
-        ctx.finding("river/valid_start_rejected", "delineate_river raises on a valid start cell", case)
-        return
+        ctx.count(("river", str(case)), False, "river/error" + ("_on_cycle" if cyclic else ""))
+        if not cyclic:
+            # a chain that ends is a plain trace: it must be returned (cut at nval cells)
+            ctx.finding("river/valid_start_rejected", "delineate_river raises on a valid start cell whose downstream chain "
+                        "ends in a sink / leaves the grid", case)
+        return          # a chain running into a flow cycle: an error is one of the two allowed outcomes
     # expected chain
     chain, c = [], start
     while len(chain) < nval:
@@ -975,9 +999,16 @@ def oracle_river(ctx, g, op, r, case, tag, nval):
             break
     rows = r["ok"]
     ctx.count(("river", g.nrows, g.ncols, tuple(g.fd), start, nval), len(chain) > 1,
-              f"river/{tag.split('/')[0]}/" + ("capped" if len(chain) == nval and c >= 0 else "ended"))
+              f"river/{tag.split('/')[0]}/" + ("cyclic" if cyclic else "capped" if len(chain) == nval and c >= 0 else "ended"))
     got = [int(x[0]) for x in rows]
-    if got != chain:
+    if cyclic:
+        # bounded result: any prefix of the true chain (at most nval cells) — checked row by row below
+        if len(got) > nval or got != chain[:len(got)]:
+            ctx.finding("river/not_downstream_chain", "the river cells on a chain that runs into a cycle are not a prefix "
+                        "(at most nval cells) of the downstream chain", {**case, "got": got[:50], "expected": chain[:50]})
+            return
+        chain = chain[:len(got)]
+    elif got != chain:
         ctx.finding("river/not_downstream_chain", "the river cells are not the downstream chain from the start cell "
                     "(up to nval cells, ending at the first sink / exit)", {**case, "got": got[:50], "expected": chain[:50]})
         return
